@@ -113,19 +113,67 @@ pub fn parse_console(text: &str) -> Result<Vec<Ev>, String> {
     Ok(v)
 }
 
+/// key=value pairs of one logfmt line; a value may be a double-quoted string (with backslash
+/// escapes) and may then hold blanks
+fn logfmt_pairs(line: &str) -> Result<Vec<(String, String)>, String> {
+    let b: Vec<char> = line.chars().collect();
+    let mut kv = Vec::new();
+    let mut i = 0;
+    while i < b.len() {
+        if b[i].is_whitespace() {
+            i += 1;
+            continue;
+        }
+        let ks = i;
+        while i < b.len() && b[i] != '=' && !b[i].is_whitespace() {
+            i += 1;
+        }
+        if i >= b.len() || b[i] != '=' || i == ks {
+            return Err(format!("token {:?} is not key=value in line {:?}", b[ks..i.min(b.len())].iter().collect::<String>(), line));
+        }
+        let key: String = b[ks..i].iter().collect();
+        i += 1;
+        let mut val = String::new();
+        if i < b.len() && b[i] == '"' {
+            i += 1;
+            let mut closed = false;
+            while i < b.len() {
+                if b[i] == '\\' && i + 1 < b.len() {
+                    val.push(b[i + 1]);
+                    i += 2;
+                } else if b[i] == '"' {
+                    closed = true;
+                    i += 1;
+                    break;
+                } else {
+                    val.push(b[i]);
+                    i += 1;
+                }
+            }
+            if !closed {
+                return Err(format!("unterminated quoted value of key {:?} in line {:?}", key, line));
+            }
+            if i < b.len() && !b[i].is_whitespace() {
+                return Err(format!("bytes behind the closing quote of key {:?} in line {:?}", key, line));
+            }
+        } else {
+            while i < b.len() && !b[i].is_whitespace() {
+                val.push(b[i]);
+                i += 1;
+            }
+        }
+        kv.push((key, val));
+    }
+    Ok(kv)
+}
+
 pub fn parse_logfmt(text: &str) -> Result<Vec<Ev>, String> {
     let mut v = Vec::new();
     if !text.is_empty() && !text.ends_with('\n') {
         return Err("output does not end with a newline (incomplete line)".to_string());
     }
     for line in text.lines() {
-        let mut kv: Vec<(String, String)> = Vec::new();
-        for tok in line.split_whitespace() {
-            match tok.find('=') {
-                Some(i) if i > 0 => kv.push((tok[..i].to_string(), tok[i + 1..].to_string())),
-                _ => return Err(format!("token {:?} is not key=value in line {:?}", tok, line)),
-            }
-        }
+        let kv: Vec<(String, String)> = logfmt_pairs(line)?;
         let get = |k: &str| kv.iter().find(|(a, _)| a == k).map(|(_, b)| b.clone());
         let ts = get("ts").ok_or_else(|| format!("no ts= in line {:?}", line))?;
         if ts.is_empty() {
